@@ -222,8 +222,11 @@ def mini_scenario(
     with_green: bool = True,
     with_red: bool = True,
     seed: int = 3,
+    obs_variant: str = "exact",
 ):
-    """kind: 'switched' (2 hosts + server on a switch) or 'routed' (host - router - server)."""
+    """kind: 'switched' (2 hosts + server on a switch) or 'routed' (host - router - server).
+    obs_variant: 'exact' (as many components listed as the num_* sizes), 'surplus' (more services / applications /
+    folders / files listed than num_*: the surplus is truncated with a warning) or 'padded' (fewer listed than num_*)."""
     nodes = []
     links = []
     if kind == "switched":
@@ -323,6 +326,15 @@ def mini_scenario(
         "ip_list": ["192.168.1.2", "192.168.1.3"], "wildcard_list": ["0.0.0.1", "0.0.0.255"], "port_list": ["HTTP", "DNS"], "protocol_list": ["ICMP", "TCP", "UDP"],
         "num_rules": 4, "num_ports": 2,
     }
+    if obs_variant == "surplus":
+        obs_hosts[0] = {
+            "hostname": "client_1",
+            "services": [{"service_name": "dns-client"}, {"service_name": "ftp-client"}, {"service_name": "ntp-client"}],
+            "applications": [{"application_name": "web-browser"}, {"application_name": "database-client"}],
+            "folders": [{"folder_name": "docs", "files": [{"file_name": "a.txt"}, {"file_name": "b.txt"}]}, {"folder_name": "downloads", "files": [{"file_name": "c.txt"}]}],
+        }
+    elif obs_variant == "padded":
+        nodes_opts.update({"num_services": 3, "num_applications": 2, "num_folders": 2, "num_files": 2, "num_nics": 2})
     if kind != "switched":
         nodes_opts["routers"] = [{"hostname": "router_1"}]
     link_refs = [f"{l['endpoint_a_hostname']}:eth-{l['endpoint_a_port']}<->{l['endpoint_b_hostname']}:eth-{l['endpoint_b_port']}" for l in links]
